@@ -365,6 +365,43 @@ func runC16(tier string) int {
 			}
 		}
 	})
+	// ... and over the data families (hoisted texts and movements in every context, mapscripts statements, file-level programs)
+	forEachDataFamilyFile(r, tier, func(fp *fileProgram) {
+		nLines := strings.Count(fp.Src, "\n") + 1
+		for _, opt := range []bool{true, false} {
+			oOn, oOff := fp.Opts, fp.Opts
+			oOn.Optimize, oOff.Optimize = opt, opt
+			oOn.LineMarkers, oOn.Path = true, "data.pory"
+			oOff.LineMarkers, oOff.Path = false, ""
+			on, off := comp.Compile(fp.Src, oOn), comp.Compile(fp.Src, oOff)
+			r.Add("evaluations", 1)
+			r.Add("data_family_files_x_optimize", 1)
+			if on.Panic+off.Panic != "" || (on.Err == nil) != (off.Err == nil) {
+				r.Report(harness.Violation{Sig: "C16:data-family:accept-differs", Summary: fmt.Sprintf("%s: line markers change acceptance: %v / %v %s\n  source: %q", fp.Desc, on.Err, off.Err, firstLine(on.Panic+off.Panic), clip(fp.Src, 500)), Replay: map[string]interface{}{"source": fp.Src, "optimize": opt}})
+				continue
+			}
+			if on.Err != nil {
+				continue
+			}
+			r.Add("nontrivial", 1)
+			stripped, n := stripMarkers(on.Out)
+			r.Add("markers_checked", int64(n))
+			if stripped != off.Out {
+				r.Report(harness.Violation{Sig: "C16:data-family:not-transparent", Summary: fmt.Sprintf("%s optimize=%v: removing the marker lines from the -lm output does not give the -lm=false output: %s\n  source: %q", fp.Desc, opt, firstDiff(stripped, off.Out), clip(fp.Src, 500)), Replay: map[string]interface{}{"source": fp.Src, "optimize": opt, "output": on.Out, "output_without_markers": off.Out}})
+				continue
+			}
+			for _, l := range strings.Split(on.Out, "\n") {
+				if m := markerRe.FindStringSubmatch(l); m != nil {
+					var ln int
+					fmt.Sscan(m[1], &ln)
+					if m[2] != "data.pory" || ln < 1 || ln > nLines {
+						r.Report(harness.Violation{Sig: "C16:data-family:marker-range", Summary: fmt.Sprintf("%s: marker %q does not name the input file and a line in 1..%d", fp.Desc, l, nLines), Replay: map[string]interface{}{"source": fp.Src, "optimize": opt, "output": on.Out}})
+						break
+					}
+				}
+			}
+		}
+	})
 	// the size dimension: constructs after K lines, for every K <= 300 and around every power of two up to 2^17
 	var ks []int
 	for k := 0; k <= 300; k++ {
@@ -426,7 +463,7 @@ func runC16(tier string) int {
 	r.Assume("'the line on which the construct was written' is read as any line of the construct's source extent: the command, the label, the operand test incl. its comparison, the switch header, the case, the map-script entry head, the step / item, the whole text/movement/mart statement for the marker at its label, the enclosing command for hoisted text and moves() data; a raw line's own source line; in addition the marker in front of the first line of a multi-line text must not name a line after the one its first part is written on (the following lines of the text are counted from it)",
 		"string literals and raw blocks are single tokens (their inner layout is fixed)")
 	return r.Finish(r.Get("evaluations"), r.Get("nontrivial"),
-		"8 corpus programs covering every marker-emitting construct with unique names (incl. raw blocks whose lines hold a lone carriage return, a CRLF line end and a multi-byte character) x {default, one token per line, all on one line} + every layout obtained from the default by inserting <= k extras (line break, blank line, '#' comment, '//' comment line) at any token gaps; each layout compiled with lm on / off / on without a path; plus transparency and marker range over every program of the control-flow families (C01 / C03 / C04 bounds: all shapes, dead-label, sequence and scaled programs) with optimize on and off; plus one program placed after K blank lines for every K <= 300 (thorough 3000) and around every power of two up to 2^17 (thorough 2^20); non-trivial = the source has >= 2 lines")
+		"8 corpus programs covering every marker-emitting construct with unique names (incl. raw blocks whose lines hold a lone carriage return, a CRLF line end and a multi-byte character) x {default, one token per line, all on one line} + every layout obtained from the default by inserting <= k extras (line break, blank line, '#' comment, '//' comment line) at any token gaps; each layout compiled with lm on / off / on without a path; plus transparency and marker range over every program of the control-flow families (C01 / C03 / C04 bounds: all shapes, dead-label, sequence and scaled programs) and of the data families (C06 hoisting files, C08 mapscripts statements, file-level programs, reduced bounds) with optimize on and off; plus one program placed after K blank lines for every K <= 300 (thorough 3000) and around every power of two up to 2^17 (thorough 2^20); non-trivial = the source has >= 2 lines")
 }
 
 func tagKind(tag string) string { return strings.TrimRight(tag, "0123456789") }
